@@ -5,6 +5,7 @@ package main
 // overlay — /repo is never written.
 
 import (
+	"strconv"
 	"bytes"
 	"encoding/json"
 	"fmt"
@@ -84,7 +85,11 @@ func runSelftest(args []string) int {
 		info string
 	}
 	out := make([]res, len(ms))
-	sem := make(chan struct{}, 2)
+	par := 2
+	if v, err := strconv.Atoi(os.Getenv("GOVC_SELFTEST_PAR")); err == nil && v >= 1 && v <= 8 {
+		par = v
+	}
+	sem := make(chan struct{}, par)
 	var wg sync.WaitGroup
 	for i, m := range ms {
 		wg.Add(1)
